@@ -110,6 +110,14 @@ def post(prop, tier, seed, tmp, bins, results, notes, log, ENV, VERIF, REPLAYS=N
         res = asmtrace.run(tmp, seed, rounds, ENV, os.path.join(VERIF, "harness"), os.environ.get("VERIF_OVERLAY") or None, log)
         log("asm trace: %s%s" % (json.dumps(res["summary"]), (" INCONCLUSIVE: " + res["inconclusive"]) if res["inconclusive"] else ""))
         asmtrace.apply(prop, res, results, "instr-asm" if prop == "C17" else "asm", notes, REPLAYS, seed)
+    if prop == "C17" and any(r["config"] == "instr-asm" for r in results):
+        import cttrace
+        tags = next((t for c, (b, t) in bins.items() if c == "instr-asm"), ["verif"])
+        res = cttrace.run(tmp, seed, tier, ENV, os.path.join(VERIF, "harness"), os.environ.get("VERIF_OVERLAY") or None, tags, log)
+        s = res["summary"]
+        log("instruction trace: regions=%s instructions=%s operations=%s%s" % (s.get("regions"), s.get("instructions_stepped"), s.get("operations"),
+                                                                                 (" INCONCLUSIVE: " + res["inconclusive"]) if res["inconclusive"] else ""))
+        cttrace.apply(prop, res, results, "instr-asm", notes, REPLAYS, seed, tier)
 
 
 def adjust_rc(prop, rc, results):
